@@ -3,6 +3,7 @@ children in the same positions with the same attributes; (R01.2) no silently tru
 simplifier; (R01.3) the rule dispatcher hands each rule the attributes of the node it matched."""
 from ..tree import *  # noqa
 from .. import norm as norm_
+from .. import peval
 from ..flow import Index
 from ..tables import *  # noqa
 from .. import intcast
@@ -32,124 +33,65 @@ def run(ctx):
 
 
 def r011(ctx, t0, t1):
+    """update_expr_children(ctx, expr_ref, children): evaluated once per variant of Expr with the node known to be that variant and the
+    children slice known to have that variant's number of children: the result must be add_expr(<the same variant, children in
+    for_each_child positions, attributes from the matched node>)"""
     f = ctx.fn("patronus", UPDATE)
-    params = [binding_of(p) for p in f["params"]]
-    # the match whose scrutinee is a tuple (&ctx[expr_ref], children)
-    m = None
-    for n in walk(f["body"]):
-        if n.get("k") == "match" and n.get("src") == "match" and peel(n["scrut"]).get("k") == "tuple":
-            m = n
-            break
-    if m is None:
-        ctx.violation("R01.1", "update_expr_children:shape", f["span"], "UNRECOGNISED: no match over (node, children) found")
-        return
-    es = peel(m["scrut"])["es"]
-    node_e = resolve(es[0])
-    ok_scrut = node_e.get("k") == "index" and callee(node_e) == INDEX_EXPR and params[1] and is_local(node_e["i"], params[1][1])
-    ok_scrut = ok_scrut and params[2] and is_local(es[1], params[2][1])
-    ctx.inst("R01.1", "update_expr_children:scrutinee", ok_scrut, m["sp"], "the match does not inspect (ctx[expr_ref], children) of the parameters: %s" % show(m["scrut"]))
-    seen = {}
-    for alt, arm in match_arms(m):
-        if alt.get("k") != "ptuple" or len(alt["subs"]) != 2:
-            ctx.violation("R01.1", "update_expr_children:arm-shape", arm["sp"], "UNRECOGNISED arm pattern %s" % show_pat(alt))
-            continue
-        vp = variant_pat(alt["subs"][0])
-        if vp is None:
-            # catch-all: must not be reachable for any variant with children -> checked below via `seen`
-            continue
-        path, keys, _rest = vp
-        name = vname(path)
-        info = t0.variants.get(name)
-        if info is None:
-            continue
-        sl = alt["subs"][1]
-        while sl.get("k") in ("pref", "pderef"):
-            sl = sl["pat"]
-        body = peel_block(arm["body"])
-        diverges = arm["body"].get("ty") == "!" or any(callee(x) and callee(x).startswith("core::panicking") for x in walk(arm["body"]))
-        if sl.get("k") != "pslice":
-            if not info["child_keys"] and diverges:
-                seen.setdefault(name, "nullary-panic")
-                continue
-            if diverges:
-                continue
-            ctx.violation("R01.1", "update_expr_children:%s" % name, arm["sp"], "UNRECOGNISED: children pattern of the %s arm is not a slice pattern: %s" % (name, show_pat(sl)))
-            continue
-        if "mid" in sl or sl["after"]:
-            ctx.violation("R01.1", "update_expr_children:%s" % name, arm["sp"], "UNRECOGNISED: slice pattern with a rest element")
-            continue
-        child_binds = [binding_of(x) for x in sl["before"]]
-        attr_binds = {}
-        for k, sp in keys.items():
-            b = binding_of(sp)
-            if b:
-                attr_binds[b[1]] = k
-        # the constructed value
-        if body.get("k") == "struct":
-            cpath = body["path"]
-            got = {}
-            for fl in body["fields"]:
-                n_ = fl["name"]
-                got[int(n_) if n_.isdigit() else n_] = fl["e"]
-        elif body.get("k") == "ctor":
-            cpath = callee(body)
-            got = {i: a for i, a in enumerate(body["args"])}
-        else:
-            ctx.violation("R01.1", "update_expr_children:%s" % name, arm["sp"], "UNRECOGNISED: arm for %s does not construct an Expr value directly: %s" % (name, show(body)))
-            continue
+    pids = param_ids(f) + [None] * 3
+    p_ctx, p_ref, p_children = pids[0], pids[1], pids[2]
+
+    def is_node(e):
+        e = resolve(e)
+        return e.get("k") == "index" and callee(e) == INDEX_EXPR and is_local(e["i"], p_ref) and is_local(e["e"], p_ctx)
+    rebuilt = 0
+    for name, info in t0.variants.items():
+        order = t1.order.get(name, [])
         key = "update_expr_children:%s" % name
-        if name in seen:
-            continue  # first matching arm wins at run time
-        seen[name] = "rebuild"
+        pe = peval.PEval(is_node, EXPR + "::" + name, {canon(p_children): len(info["child_keys"])})
+        try:
+            v = pe.run(f)
+        except peval.Stuck as ex:
+            ctx.violation("R01.1", key, f["span"], "UNRECOGNISED: what update_expr_children builds for %s depends on more than the node's kind and the number of children (%s)" % (name, ex))
+            continue
+        if not info["child_keys"]:
+            # never called for nodes without children: an abort is the expected answer, a rebuilt leaf must at least be the same leaf
+            okl = v[0] == "diverge" or (v[0] == "call" and v[1] == ADD_EXPR and v[2][-1][0] == "ctor" and v[2][-1][1] == EXPR + "::" + name)
+            ctx.inst("R01.1", key, okl, f["span"], "update_expr_children on the leaf %s yields %s" % (name, v[:2]), nontrivial=False)
+            continue
+        if v[0] == "diverge":
+            ctx.violation("R01.1", key, f["span"],
+                          "variant %s has children but no rebuilding arm: a node of this kind whose child was rewritten reaches the `%s!` abort" % (name, v[1]))
+            continue
         problems = []
-        if vname(cpath) != name or not cpath.startswith(EXPR):
-            problems.append("constructs %s" % short(cpath))
+        node = v[2][-1] if (v[0] == "call" and v[1] == ADD_EXPR and v[2]) else None
+        if node is None:
+            problems.append("the rebuilt node is not interned through Context::add_expr (result: %s)" % str(v)[:80])
+        elif node[0] != "ctor":
+            problems.append("does not construct an Expr value: %s" % str(node)[:80])
+        elif node[1] != EXPR + "::" + name:
+            problems.append("constructs %s" % short(node[1]))
         else:
-            order = t1.order.get(name, [])
-            if len(child_binds) != len(order):
-                problems.append("slice pattern binds %d children, for_each_child yields %d" % (len(child_binds), len(order)))
+            rebuilt += 1
             perm = []
             for fk, _ty in info["fields"]:
-                e = got.get(fk)
-                if e is None:
+                x = node[2].get(fk)
+                if x is None:
                     problems.append("field %s not set" % fk)
-                    continue
-                e = peel(e)
-                if fk in info["child_keys"]:
-                    idx = None
-                    if e.get("k") == "local":
-                        for j, cb in enumerate(child_binds):
-                            if cb and cb[1] == e["id"]:
-                                idx = j
-                    if idx is None:
-                        problems.append("child field %s is %s, not one of the rewritten children" % (fk, show(e)))
+                elif fk in info["child_keys"]:
+                    if x[0] == "child" and x[1] == canon(p_children):
+                        perm.append((fk, x[2]))
                     else:
-                        perm.append((fk, idx))
-                else:
-                    if not (e.get("k") == "local" and attr_binds.get(e["id"]) == fk):
-                        problems.append("attribute field %s is %s, not the matched node's own %s" % (fk, show(e), fk))
+                        problems.append("child field %s is %s, not one of the rewritten children" % (fk, str(x)[:40]))
+                elif x != ("attr", fk):
+                    problems.append("attribute field %s is %s, not the matched node's own %s" % (fk, str(x)[:40], fk))
             if not problems:
-                want = {fk: j for j, fk in enumerate(order)}
+                want = {fk: j_ for j_, fk in enumerate(order)}
                 exact = all(want.get(fk) == idx for fk, idx in perm)
-                is_perm = sorted(i for _, i in perm) == list(range(len(order)))
+                is_perm = sorted(i_ for _, i_ in perm) == list(range(len(order)))
                 if not exact and not (name in COMMUTATIVE and is_perm):
-                    problems.append("children are placed as %s but for_each_child order is %s" % (
-                        ["%s<-children[%d]" % (fk, idx) for fk, idx in perm], order))
-        ctx.inst("R01.1", key, not problems, arm["sp"], "rebuild arm for %s: %s" % (name, "; ".join(problems)),
-                 sample={"variant": name, "rebuilds": show(body)})
-    for name, info in t0.variants.items():
-        if info["child_keys"] and name not in seen:
-            ctx.violation("R01.1", "update_expr_children:%s" % name, f["span"],
-                          "variant %s has children but no rebuilding arm: a node of this kind whose child was rewritten reaches the catch-all abort" % name)
-    ctx.floor("R01.1", "rebuilding arms", sum(1 for v in seen.values() if v == "rebuild"), 32)
-    # result interned through add_expr
-    calls = find_calls(f["body"], lambda p: p == ADD_EXPR)
-    ok = False
-    for c in calls:
-        a = peel(c["args"][0]) if c["args"] else {}
-        if a.get("k") == "local":
-            ok = True
-    ctx.inst("R01.1", "update_expr_children:add_expr", ok, f["span"], "the rebuilt node is not interned through Context::add_expr")
+                    problems.append("children are placed as %s but for_each_child order is %s" % (["%s<-children[%d]" % (fk, idx) for fk, idx in perm], order))
+        ctx.inst("R01.1", key, not problems, f["span"], "rebuild of %s: %s" % (name, "; ".join(problems)), sample={"variant": name, "rebuilds": str(node)[:120]})
+    ctx.floor("R01.1", "rebuilding arms", rebuilt, 32)
 
 
 def r012(ctx):
